@@ -75,7 +75,7 @@ class Engine(ExprMixin, BuiltinMixin):
 
     # ---- obligations -------------------------------------------------------------------------------------
     # sequence functionals: value determined by the first n elements of their array arguments
-    FUNCTIONALS = {"mean": ([0], 1), "Fobj": ([1], 2), "WF": ([1], 2), "dot": ([0, 1], 2),
+    FUNCTIONALS = {"mean": ([0], 1), "Fobj": ([1], 2), "FobjArr": ([1], 2), "dot": ([0, 1], 2),
                    "stop_at": ([6], 7)}
 
     def congruence_instances(self, formulas):
